@@ -48,7 +48,17 @@ impl Lsp {
             | Some(f) => Stdio::from(f),
             | None => Stdio::null(),
         };
-        let mut child = Command::new(binary).env("RUST_BACKTRACE", "0").stdin(Stdio::piped()).stdout(Stdio::piped()).stderr(stderr).spawn()?;
+        let mut command = Command::new(binary);
+        command.env("RUST_BACKTRACE", "0").stdin(Stdio::piped()).stdout(Stdio::piped()).stderr(stderr);
+        // the server must not outlive the monitor (a shard killed by the watchdog cannot run destructors)
+        unsafe {
+            use std::os::unix::process::CommandExt;
+            command.pre_exec(|| {
+                libc::prctl(libc::PR_SET_PDEATHSIG, libc::SIGKILL);
+                Ok(())
+            });
+        }
+        let mut child = command.spawn()?;
         let mut stdin: ChildStdin = child.stdin.take().expect("piped stdin");
         let (input_tx, input_rx) = channel::<Vec<u8>>();
         std::thread::spawn(move || {
